@@ -1,0 +1,115 @@
+//go:build verif
+
+package routing
+
+// Hooks into the DTLSR routing algorithm for the out-of-tree verification harness (build tag
+// verif). Add-only; nothing here is compiled into a normal build. The hooks only call the
+// original (unexported) functions or copy state out / put a loss time in; none re-implements logic.
+
+import (
+	"sort"
+
+	"github.com/dtn7/dtn7-go/pkg/bpv7"
+)
+
+// VerifNewDTLSR runs the real constructor on a Core (the instance is not installed as the Core's
+// routing algorithm; a second registration of the cron jobs is refused by the Cron and only logged).
+func VerifNewDTLSR(c *Core, conf DTLSRConfig) *DTLSR { return NewDTLSR(c, conf) }
+
+// VerifDTLSR returns the Core's routing algorithm when it is DTLSR.
+func (c *Core) VerifDTLSR() *DTLSR {
+	d, _ := c.routing.(*DTLSR)
+	return d
+}
+
+// VerifNotify hands a bundle to the real NotifyNewBundle. The bundle is not pushed into the store
+// (NotifyNewBundle then stops after the link-state part with "Bundle not in store").
+func (dtlsr *DTLSR) VerifNotify(b bpv7.Bundle) {
+	bd := BundleDescriptor{
+		Id:          b.ID(),
+		Receiver:    bpv7.DtnNone(),
+		Constraints: make(map[Constraint]bool),
+		Tags:        make(map[Tag]struct{}),
+		bndl:        &b,
+		store:       dtlsr.c.store,
+	}
+	dtlsr.NotifyNewBundle(bd)
+}
+
+// VerifCompute calls computeRoutingTable under the data mutex and returns the DTN time read
+// immediately before and after (the function reads the clock itself).
+func (dtlsr *DTLSR) VerifCompute() (before, after bpv7.DtnTime) {
+	dtlsr.dataMutex.Lock()
+	defer dtlsr.dataMutex.Unlock()
+	before = bpv7.DtnTimeNow()
+	dtlsr.computeRoutingTable()
+	after = bpv7.DtnTimeNow()
+	return
+}
+
+// VerifRecomputeCron / VerifBroadcastCron / VerifPurge run the three cron jobs once.
+func (dtlsr *DTLSR) VerifRecomputeCron() (before, after bpv7.DtnTime) {
+	before = bpv7.DtnTimeNow()
+	dtlsr.recomputeCron()
+	after = bpv7.DtnTimeNow()
+	return
+}
+func (dtlsr *DTLSR) VerifBroadcastCron() { dtlsr.broadcastCron() }
+func (dtlsr *DTLSR) VerifPurge()         { dtlsr.purgePeers() }
+
+// VerifSetPeerTime overwrites the recorded loss time of an own peer that is already in the peer
+// list (as if ReportPeerDisappeared had run at that time). Nothing else is touched.
+func (dtlsr *DTLSR) VerifSetPeerTime(peer bpv7.EndpointID, t bpv7.DtnTime) bool {
+	dtlsr.dataMutex.Lock()
+	defer dtlsr.dataMutex.Unlock()
+	if _, ok := dtlsr.peers.Peers[peer]; !ok {
+		return false
+	}
+	dtlsr.peers.Peers[peer] = t
+	return true
+}
+
+// VerifDtlsrState is a deep copy of the algorithm's data.
+type VerifDtlsrState struct {
+	Own            bpv7.DTLSRPeerData
+	Received       []bpv7.DTLSRPeerData // sorted by ID string
+	IndexNode      []bpv7.EndpointID
+	NodeIndex      map[bpv7.EndpointID]int
+	Length         int
+	Table          map[bpv7.EndpointID]bpv7.EndpointID
+	PeerChange     bool
+	ReceivedChange bool
+}
+
+func verifCopyPD(d bpv7.DTLSRPeerData) bpv7.DTLSRPeerData {
+	c := bpv7.DTLSRPeerData{ID: d.ID, Timestamp: d.Timestamp, Peers: make(map[bpv7.EndpointID]bpv7.DtnTime)}
+	for k, v := range d.Peers {
+		c.Peers[k] = v
+	}
+	return c
+}
+
+func (dtlsr *DTLSR) VerifState() VerifDtlsrState {
+	dtlsr.dataMutex.RLock()
+	defer dtlsr.dataMutex.RUnlock()
+	s := VerifDtlsrState{
+		Own:            verifCopyPD(dtlsr.peers),
+		IndexNode:      append([]bpv7.EndpointID(nil), dtlsr.indexNode...),
+		NodeIndex:      make(map[bpv7.EndpointID]int),
+		Length:         dtlsr.length,
+		Table:          make(map[bpv7.EndpointID]bpv7.EndpointID),
+		PeerChange:     dtlsr.peerChange,
+		ReceivedChange: dtlsr.receivedChange,
+	}
+	for _, d := range dtlsr.receivedData {
+		s.Received = append(s.Received, verifCopyPD(d))
+	}
+	sort.Slice(s.Received, func(i, j int) bool { return s.Received[i].ID.String() < s.Received[j].ID.String() })
+	for k, v := range dtlsr.nodeIndex {
+		s.NodeIndex[k] = v
+	}
+	for k, v := range dtlsr.routingTable {
+		s.Table[k] = v
+	}
+	return s
+}
